@@ -1,5 +1,5 @@
 (* C15 correspondence: cases as printed by harness/c15. *)
-From Verif Require Export Lib.Base Lib.JobTab Model.C15_Sync Model.C15_Hist.
+From Verif Require Export Lib.Base Lib.JobTab Model.C15_Sync Model.C15_Hist Model.C15_Sites.
 
 (* The job list of the scheduler as the harness prints it: maximal runs of jobs of one kind for
    consecutive slots whose times advance by a constant step, (kind, first slot, count, time of the
